@@ -465,8 +465,7 @@ type Reference map[string][]FileOut
 // reference: canonical listings, identity iteration order, one fresh
 // PackageSet per package. A package whose canonical compile fails is part of
 // the reference too (refErrKey): "compiles" versus "fails" is the coarsest
-// output there is, and it must not depend on orders or history either. Only a
-// program none of whose packages compiles has no reference.
+// output there is, and it must not depend on orders or history either.
 func computeReference(p *Program) (Reference, error) {
 	ref := Reference{}
 	ctx := context.Background()
@@ -496,9 +495,11 @@ func computeReference(p *Program) (Reference, error) {
 		okCount++
 		ref[pkg] = outs
 	}
-	if okCount == 0 && firstErr != nil {
-		return nil, firstErr
-	}
+	// Even a program none of whose packages compiles canonically keeps its reference: every
+	// package must then fail in every judged execution too (a permuted order that makes one of
+	// them compile is an order_dependent_error like any other).
+	_ = okCount
+	_ = firstErr
 	return ref, nil
 }
 
